@@ -265,6 +265,49 @@ def sync_conflict_stream(c, tmp, n):
         shutil.rmtree(d, ignore_errors=True)
 
 
+def lazy_harvester_stream(c, tmp, n):
+    """A harvester working lazily (chunks=...): after every save what it holds in memory, once computed, equals
+    what loading the file gives -- also when the new data sort before or among the existing coordinates."""
+    import xarray as xr
+    import xyzpy
+    for i in range(n):
+        rng = c.rng
+        d = os.path.join(tmp, f"z{i}")
+        os.makedirs(d)
+        path = os.path.join(d, rng.choice(["lazy", "lazy.h5"]))
+        h = xyzpy.Harvester(None, data_name=path, engine="h5netcdf", chunks=rng.choice([1, {"a": 1}]))
+        rep = {"stream": "lazy-harvester", "steps": []}
+        bad = None
+        try:
+            for k in range(rng.randint(2, 4)):
+                a = sorted(rng.sample(range(20), rng.randint(1, 3)))
+                pol = rng.choice([None, True, False]) if k else None
+                ds = xr.Dataset({"out": (("a",), np.array([100.0 * k + x for x in a]))}, coords={"a": a})
+                rep["steps"].append([a, str(pol)])
+                try:
+                    h.add_ds(ds, overwrite=pol)
+                except xr.MergeError:
+                    continue
+                held = h.full_ds.compute()
+                disk = xyzpy.load_ds(path)
+                if list(held["a"].values) != list(disk["a"].values) or not np.array_equal(
+                        held["out"].values, disk["out"].values, equal_nan=True):
+                    bad = (f"after step {k} the harvester holds a={list(map(int, held['a'].values))} "
+                           f"out={held['out'].values.tolist()} but the file holds a={list(map(int, disk['a'].values))} "
+                           f"out={disk['out'].values.tolist()}")
+                    break
+        except Exception as e:  # noqa
+            bad = f"{type(e).__name__}: {str(e)[:160]}"
+        finally:
+            if h._full_ds is not None:
+                h._full_ds.close()
+        c.case(json.dumps(rep, sort_keys=True), nontrivial=True, sample=rep if i % 5 == 0 else None)
+        c.count("stream", "lazy-harvester")
+        if bad:
+            c.violation("lazy-memory-differs-from-file", bad, rep)
+        shutil.rmtree(d, ignore_errors=True)
+
+
 def run(tier, seed):
     c = core.Check("C14", tier, seed)
     gen_st = core.regen()
@@ -298,6 +341,7 @@ def run(tier, seed):
                 pairs.append(mp)
                 metas.append(rep)
         sync_conflict_stream(c, tmp, 12 if tier == "quick" and not c.broken else 80)
+        lazy_harvester_stream(c, tmp, 12 if tier == "quick" and not c.broken else 80)
         bad, _ = core.safe_run_cases(c, "Prelude Names GenNames", pairs, preamble=PREAMBLE)
         for i in bad:
             c.obligation_broken("correspondence Model/Names.v (regenerated) vs manage.py",
